@@ -3,13 +3,12 @@
 
    One definition serves two purposes, selected by `mode`:
      Faithful  — the plans the engine builds (query_api/return_with.rs,
-                 match_compile.rs): inside one WITH/RETURN the order is
-                 Project, OrderBy, Skip, Limit, Distinct, Filter (DISTINCT after
-                 the window), and relationship uniqueness is enforced per
-                 pattern chain only (path_usage.rs), not across the
-                 comma-separated patterns of one MATCH;
-     Reference — openCypher: DISTINCT before ORDER BY / SKIP / LIMIT, and no
-                 relationship is used twice within one MATCH clause.
+                 match_compile.rs): relationship uniqueness is enforced per
+                 pattern chain only and by key multiplicity (path_usage.rs),
+                 not across the comma-separated patterns of one MATCH;
+     Reference — openCypher: no relationship is used twice within one MATCH clause.
+   Inside one WITH/RETURN the order is Project, Distinct, OrderBy, Skip, Limit,
+   Filter in both modes (the engine planned Distinct after Limit until b18a8dc).
    Everything else is common.  Relationships are the entries of `g_rels`
    (one per stored relationship, so a key of multiplicity m is m
    relationships), identified by their position; a relationship variable is
@@ -120,10 +119,12 @@ Definition match_pattern (md : mode) (g : graph) (p : pattern) (m : pm) : list p
   hops md g (np_var (p_start p)) (p_hops p) (start_nodes g (p_start p) m).
 
 (* Faithful: each comma-separated pattern starts with no relationship blocked *)
+Definition match_pms (md : mode) (g : graph) (ps : list pattern) (r : row) : list pm :=
+  fold_left (fun ms p =>
+               flat_map (fun m => match_pattern md g p (match md with Faithful => (fst m, []) | Reference => m end)) ms)
+            ps [(r, [])].
 Definition match_patterns (md : mode) (g : graph) (ps : list pattern) (r : row) : list row :=
-  map fst (fold_left (fun ms p =>
-             flat_map (fun m => match_pattern md g p (match md with Faithful => (fst m, []) | Reference => m end)) ms)
-           ps [(r, [])]).
+  map fst (match_pms md g ps r).
 
 Definition pattern_vars (ps : list pattern) : list var :=
   flat_map (fun p => np_var (p_start p) :: flat_map (fun h => [rp_var (fst h); np_var (snd h)]) (p_hops p)) ps.
@@ -151,16 +152,12 @@ Definition opt_limit (n : option nat) (s : stream) : stream := match n with Some
 Definition opt_order (E : env) (o : list (expr * bool)) (s : stream) : stream :=
   match o with [] => s | _ => op_orderby E o s end.
 
+(* query_api/return_with.rs after the repair b18a8dc: Project, Distinct, OrderBy, Skip, Limit
+   in both modes (before it the engine planned Distinct after Limit) *)
 Definition run_proj (md : mode) (E : env) (p : proj) (s : stream) : stream :=
   let projected := op_project E (pj_items p) s in
-  match md with
-  | Faithful =>
-      let windowed := opt_limit (pj_limit p) (opt_skip (pj_skip p) (opt_order E (pj_order p) projected)) in
-      if pj_distinct p then op_distinct windowed else windowed
-  | Reference =>
-      let d := if pj_distinct p then op_distinct projected else projected in
-      opt_limit (pj_limit p) (opt_skip (pj_skip p) (opt_order E (pj_order p) d))
-  end.
+  let d := if pj_distinct p then op_distinct projected else projected in
+  opt_limit (pj_limit p) (opt_skip (pj_skip p) (opt_order E (pj_order p) d)).
 
 (* the Project below an Aggregate keeps what the aggregate arguments read and adds the
    grouping columns: the row extended by the key columns (aliases are fresh in the generator) *)
